@@ -385,7 +385,15 @@ impl<'a> OpenResponsesSsePipe<'a> {
     }
 
     async fn push_sse_str(&mut self, chunk: &str) -> bool {
-        let parsed = self.decoder.push(chunk);
+        let mut parsed = self.decoder.push(chunk);
+        // The terminal marker ends the response: whatever follows it in the same chunk is
+        // dropped, exactly as it is when it arrives in a later chunk that is never read.
+        if let Some(done) = parsed
+            .iter()
+            .position(|event| event.kind == ParsedEventKind::Done)
+        {
+            parsed.truncate(done + 1);
+        }
         if parsed.is_empty() {
             return false;
         }
@@ -466,7 +474,13 @@ impl<'a> OpenResponsesSsePipe<'a> {
     }
 
     async fn finish(&mut self) -> bool {
-        let parsed = self.decoder.finish();
+        let mut parsed = self.decoder.finish();
+        if let Some(done) = parsed
+            .iter()
+            .position(|event| event.kind == ParsedEventKind::Done)
+        {
+            parsed.truncate(done + 1);
+        }
         if parsed.is_empty() {
             return false;
         }
